@@ -732,3 +732,17 @@ Proof.
   intros t. unfold t_upper, t_cap, t_nfkd, t_comb, upper_char_of, nfkd_of, combining_of.
   repeat split; intros x H; rewrite H; reflexivity.
 Qed.
+
+(* A concrete instance for the non-vacuity examples of Props/C21.v: dotless i upper-cases to I, e-acute
+   to E-acute, NFKD of "e-acute t e-acute" is "e \u0301 t e \u0301". *)
+Definition ex_tables : tables :=
+  mk_tables [([233; 116; 233], [101; 769; 116; 101; 769])] [769] [(305, [73]); (233, [201])] [(233, [201])] [].
+
+Lemma ex_tables_upper_idem : upper_idem_ok (t_upper ex_tables).
+Proof.
+  intros c. unfold t_upper, upper_char_of, upper. cbn [ex_tables mk_tables fst snd].
+  destruct (is_ascii c) eqn:A.
+  - cbn [flat_map]. rewrite (ascii_upper_ascii c A), ascii_upper_idem. reflexivity.
+  - cbn [assoc_Z]. destruct (c =? 305) eqn:E1; [reflexivity|]. destruct (c =? 233) eqn:E2; [reflexivity|].
+    cbn [flat_map assoc_Z]. rewrite A, E1, E2. reflexivity.
+Qed.
